@@ -339,17 +339,28 @@ func checkTransmitRange(c *Ctx) {
 	c.Rule(rule)
 	fn := c.MustFunc("TransmitLimitedQueue.getTransmitRange")
 	x := c.flow(fn, map[string]string{})
+	// the value a result stands for, followed through locals and the type assertion:
+	// "<tree>.Min().(*limitedBroadcast).transmits" however the intermediate steps are named
 	resolve := func(ex *gea.Exit, r string) string {
-		r = untok(r)
-		const suf = ".(*limitedBroadcast).transmits"
-		if !strings.HasSuffix(r, suf) {
-			return r
+		r = strings.ReplaceAll(untok(r), "~", "")
+		if !strings.HasSuffix(r, ".transmits") {
+			if t, ok := ex.Store[r]; ok && t.S != "" && untok(t.S) != r {
+				r = strings.ReplaceAll(untok(t.S), "~", "")
+			}
+			if !strings.HasSuffix(r, ".transmits") {
+				return r
+			}
 		}
-		base := strings.TrimSuffix(r, suf)
-		if t, ok := ex.Store[base]; ok && t.S != "" {
-			return untok(t.S) + suf
+		b := strings.TrimSuffix(r, ".transmits")
+		for i := 0; i < 4; i++ {
+			b = strings.TrimSuffix(b, ".(*limitedBroadcast)")
+			t, ok := ex.Store[b]
+			if !ok || t.S == "" || strings.ReplaceAll(untok(t.S), "~", "") == b {
+				break
+			}
+			b = strings.ReplaceAll(untok(t.S), "~", "")
 		}
-		return r
+		return strings.TrimSuffix(b, ".(*limitedBroadcast)") + ".transmits"
 	}
 	n := 0
 	for _, ex := range x.Exits {
@@ -369,7 +380,7 @@ func checkTransmitRange(c *Ctx) {
 			c.Check("C10/retrieval/walk-covers-tree", rule, ex.Pos, empty, "returns (0,0) although the tree may hold items {"+untok(gea.CubeString(ex.Cube))+"}")
 			continue
 		}
-		ok := lo == "m.tq.Min().(*limitedBroadcast).transmits" && hi == "m.tq.Max().(*limitedBroadcast).transmits"
+		ok := lo == "m.tq.Min().transmits" && hi == "m.tq.Max().transmits"
 		c.Check("C10/retrieval/walk-covers-tree", rule, ex.Pos, ok, "returns ("+lo+", "+hi+") instead of the transmit counts of the tree's least and greatest items: tiers outside that range are never visited, their items are neither sent again nor completed")
 	}
 	c.Floor("exits of the range helper", n, 2)
